@@ -63,6 +63,29 @@ func init() {
 					add(c)
 				}
 			}
+			// wide assignments: 5..9 fields each hitting a posting list of one size group (a scan over that many live
+			// cursors), with and without a hostile value among them
+			for _, kind := range []string{"kgroups", "compact"} {
+				var wide eConj
+				for f := 10; f < 19; f++ {
+					wide = append(wide, eExpr{F: f, Inc: true, V: tvSlice("[]int", tvInt("int", 1), tvInt("int", 2))})
+				}
+				wdocs := []eDoc{{ID: 1, Cons: []eConj{wide}}, {ID: 2, Cons: []eConj{wide[:6], {{F: 10, Inc: false, V: tvInt("int", 2)}}}}, {ID: 3, Cons: []eConj{wide[2:9]}}}
+				c := eCase{Kind: kind, Policy: "error", Docs: wdocs}
+				for n := 4; n <= 9; n++ {
+					var a []eAssign
+					for f := 10; f < 10+n; f++ {
+						a = append(a, eAssign{F: f, V: tvInt("int", int64(1+f%2))})
+					}
+					c.Queries = append(c.Queries, eQuery{A: a})
+					for _, v := range []TV{tvBool(true), tvNil(), {T: "other:struct"}, tvList(tvInt("int", 1), tvNil())} {
+						b := append([]eAssign{}, a...)
+						b[len(b)-1].V = v
+						c.Queries = append(c.Queries, eQuery{A: b}, eQuery{A: a})
+					}
+				}
+				add(c)
+			}
 			// degenerate index states: configured fields whose holders hold nothing (no document at all; empty
 			// value lists; a keyword / range value that does not parse under the Skip policy, so the holder was
 			// created and stays empty), next to one match-everything document
